@@ -42,6 +42,11 @@ func (rst *RstStream) Deserialize(fr *FrameHeader) error {
 		return ErrMissingBytes
 	}
 
+	// https://httpwg.org/specs/rfc7540.html#rfc.section.6.4
+	if len(fr.payload) != 4 {
+		return NewGoAwayError(FrameSizeError, "RST_STREAM payload must be 4 bytes")
+	}
+
 	rst.code = ErrorCode(http2utils.BytesToUint32(fr.payload))
 
 	return nil
